@@ -35,6 +35,9 @@ def main(argv=None):
     try:
         m = model.Model()
         run.model_stats = m.stats()
+        from . import rules_axis
+        rules_axis.MODEL = m
+        rules_axis._RET_CACHE.clear()
         mod.check(m, run)
     except model.AnalysisError as ex:
         run.error(str(ex))
